@@ -133,3 +133,32 @@ func VerifHelperFunctionMap() template.FuncMap { return helperFunctionMap }
 func (nc *Coordinator) VerifRefresh() {
 	nc.sendClusterRequest()
 }
+
+// VerifConfigure runs the real Configure on a fresh coordinator (viper must hold the notifier section).
+func VerifConfigure(app *protocol.ApplicationContext) *Coordinator {
+	nc := &Coordinator{App: app, Log: zap.NewNop()}
+	nc.Configure()
+	return nc
+}
+
+// VerifModuleLists reports, per configured module, the patterns of the allowlist and the denylist the
+// module was constructed with ("" = none).
+func (nc *Coordinator) VerifModuleLists() map[string][2]string {
+	out := make(map[string][2]string)
+	for name, m := range nc.modules {
+		var lists [2]string
+		if mod, ok := m.(Module); ok {
+			if re := mod.GetGroupAllowlist(); re != nil {
+				lists[0] = re.String()
+			}
+			if re := mod.GetGroupDenylist(); re != nil {
+				lists[1] = re.String()
+			}
+		}
+		out[name] = lists
+	}
+	return out
+}
+
+// VerifMinInterval is the shortest module interval Configure found (seconds).
+func (nc *Coordinator) VerifMinInterval() int64 { return nc.minInterval }
